@@ -20,7 +20,7 @@ def strategy(draw):
     spec['raw']['chunk'] = c
     spec['rate'] = c / 600.0
     return {'k': 'model', 'spec': spec, 'max_per_template': draw(st.integers(2, 6)),
-            'np_seed': draw(st.integers(0, 2 ** 31 - 1))}
+            'np_seed': draw(st.integers(0, 2 ** 31 - 1)), 'export': draw(st.booleans())}
 
 
 def check(case):
@@ -38,26 +38,24 @@ def check(case):
             np.random.seed(case['np_seed'])
             must_return('save_spikes_subset_waveforms', m.save_spikes_subset_waveforms,
                         max_n_spikes_per_template=mpt, max_n_channels=2)
-            ids = np.load(T.dir / '_phy_spikes_subset.spikes.npy').tolist()
             iv = D.kept_chunk_intervals(bounds)
             info['n_chunks'] = len(bounds) - 1
-            samples = [int(x) for x in T.samples]
-            require(all(b > a for a, b in zip(ids, ids[1:])), 'selected spike ids not strictly '
-                    'increasing', key='model-sel-increasing', observed=ids)
-            bad = [i for i in ids if not any(a <= samples[i] < b for a, b in iv)]
-            require(not bad, 'selected spike outside the kept chunks', key='model-sel-chunk',
-                    observed=(bad, [samples[i] for i in bad]), expected=iv)
-            for t in sorted(set(int(x) for x in T.spike_templates)):
-                elig = [i for i in range(len(samples)) if int(T.spike_templates[i]) == t and
-                        any(a <= samples[i] < b for a, b in iv)]
-                got = [i for i in ids if int(T.spike_templates[i]) == t]
-                if len(elig) <= mpt:
-                    require(got == elig, 'not all eligible spikes of template %d selected' % t,
-                            key='model-sel-all', observed=got, expected=elig)
-                else:
-                    require(len(got) == mpt and set(got) <= set(elig),
-                            'over-subscribed template %d: wrong number of spikes' % t,
-                            key='model-sel-count', observed=got, expected=(mpt, elig))
+            _selection(T, np.load(T.dir / '_phy_spikes_subset.spikes.npy').tolist(), iv, mpt, '')
+            if case.get('export') and spec['raw']['backend'] != 'cbin' and spec['amplitudes']:
+                # the ALF export makes its own selection (500 per template), whatever was
+                # extracted before; the exported spike list obeys the same constraints
+                from phylib.io.alf import EphysAlfCreator, NSAMPLE_WAVEFORMS
+                np.random.seed(case['np_seed'] + 1)
+                om = must_return('convert', EphysAlfCreator(m).convert, d / 'alf')
+                try:
+                    _selection(T, np.load(d / 'alf' / '_phy_spikes_subset.spikes.npy').tolist(),
+                               iv, NSAMPLE_WAVEFORMS, ' (selection exported by convert())')
+                    info['exported'] = True
+                finally:
+                    try:
+                        om.close()
+                    except Exception:
+                        pass
         finally:
             m.close()
             if mt is not None:
@@ -68,6 +66,28 @@ def check(case):
     return info
 
 
+def _selection(T, ids, iv, mpt, sfx):
+    samples = [int(x) for x in T.samples]
+    require(all(b > a for a, b in zip(ids, ids[1:])), 'selected spike ids not strictly '
+            'increasing' + sfx, key='model-sel-increasing', observed=ids)
+    bad = [i for i in ids if not any(a <= samples[i] < b for a, b in iv)]
+    require(not bad, 'selected spike outside the kept chunks' + sfx, key='model-sel-chunk',
+            observed=(bad, [samples[i] for i in bad]), expected=iv)
+    for t in sorted(set(int(x) for x in T.spike_templates)):
+        elig = [i for i in range(len(samples)) if int(T.spike_templates[i]) == t and
+                any(a <= samples[i] < b for a, b in iv)]
+        got = [i for i in ids if int(T.spike_templates[i]) == t]
+        if len(elig) <= mpt:
+            require(got == elig, 'not all eligible spikes of template %d selected%s' % (t, sfx),
+                    key='model-sel-all', observed=got, expected=elig)
+        else:
+            require(len(got) == mpt and set(got) <= set(elig),
+                    'over-subscribed template %d: wrong number of spikes%s' % (t, sfx),
+                    key='model-sel-count', observed=got, expected=(mpt, elig))
+
+
 def classify(case, info):
     labels = ['model', 'model:chunks>20' if info.get('n_chunks', 0) > 20 else 'model:chunks<=20']
+    if info.get('exported'):
+        labels.append('model:selection-of-the-alf-export')
     return labels, info.get('n_chunks', 0) > 20
